@@ -612,7 +612,7 @@ Lemma wdem_inv : forall id f s s' u,
   with_dir_entry_mut id f s = (s', Ok u) ->
   exists e, nthN (dirs s) id = Some e /\ dirs s' = modN (dirs s) id f.
 Proof.
-  intros id f s s' u H. unfold with_dir_entry_mut in H.
+  intros id f s s' u H. apply with_dir_entry_mut_ok_inv in H. unfold with_dir_entry_mut_inner in H.
   binv H e s1 H1 H2. binv H2 u1 s2 H2 H3.
   destruct (rmw_inv2 id f _ _ _ _ _ H1 H2) as (-> & He & E).
   apply (frames_run _ _ _ _ _ (frames_write_dir_entry _)) in H3.
